@@ -93,10 +93,11 @@ def fmt_in(rng, v):
 
 
 def run_tool(args):
-    exe, wb, dat, cwd = args
+    exe, wb, dat, cwd = args[:4]
+    flags = list(args[4]) if len(args) > 4 else []
     env = core.san_env('asan')
     try:
-        p = subprocess.run([exe, wb, dat], cwd=cwd, env=env, stdout=subprocess.PIPE, stderr=subprocess.PIPE, text=True, timeout=300, errors='replace')
+        p = subprocess.run([exe, wb, dat] + flags, cwd=cwd, env=env, stdout=subprocess.PIPE, stderr=subprocess.PIPE, text=True, timeout=300, errors='replace')
         return p.returncode, p.stdout, p.stderr
     except subprocess.TimeoutExpired:
         return 'timeout', '', ''
@@ -184,7 +185,8 @@ def main(tier, seed, replay):
         runs.append({'i': i, 'wb': wb, 'dat': dat, 'spec': spec, 'ctx': ctx, 'text': text})
     exe = core.exe('asan', 'gwb-dat')
     with concurrent.futures.ThreadPoolExecutor(max_workers=core.NCPU) as ex:
-        outs = list(ex.map(run_tool, [(exe, r['wb'], r['dat'], workdir) for r in runs]))
+        # the documented command line flag that only limits debug checks must not change a single printed value
+        outs = list(ex.map(run_tool, [(exe, r['wb'], r['dat'], workdir, ['--limit-debug-consistency-checks'] if r['i'] % 3 == 0 else []) for r in runs]))
     # reference values through wbmon
     cases = []
     for r in runs:
